@@ -186,22 +186,25 @@ Fixpoint change_kvs (mapord : list (string * string) -> list (string * string))
   end.
 Definition change_marshal mapord (c : changev) : json := JObj (change_kvs mapord f_Change (change_fields c)).
 
-Fixpoint change_dec (fs : list field) (kv : list (string * json)) : res (list cfield) :=
+Fixpoint change_dec_ns (ns : list string) (fs : list field) (kv : list (string * json)) : res (list cfield) :=
   match fs with
   | [] => Ok []
   | Field _ n _ ft :: fr =>
       rbind (match ft with
-             | TStr => rbind (dec_occs (dec TStr) TStr (entries_f (names f_Change) n kv))
+             | TStr => rbind (dec_occs (dec TStr) TStr (entries_f ns n kv))
                              (fun v => match v with VStr s => Ok (CStr s) | _ => Unmodelled end)
-             | TPtr TOSMRef => match entries_f (names f_Change) n kv with
+             | TPtr TOSMRef => match entries_f ns n kv with
                                | [] | [JNull] => Ok (COsm None)
                                | [j] => rmap (fun o => COsm (Some o)) (osm_unmarshal j)
                                | _ => Unmodelled
                                end
              | _ => Unmodelled
              end)
-            (fun v => rbind (change_dec fr kv) (fun vs => Ok (v :: vs)))
+            (fun v => rbind (change_dec_ns ns fr kv) (fun vs => Ok (v :: vs)))
   end.
+(* the decoder resolves keys against the names of the whole Change struct *)
+Definition change_dec (fs : list field) (kv : list (string * json)) : res (list cfield) :=
+  change_dec_ns (names f_Change) fs kv.
 
 Definition change_unmarshal (doc : json) : res changev :=
   match doc with
